@@ -872,6 +872,9 @@ def write_dir(dirpath, files):
     else:
         os.makedirs(dirpath)
     for n, b in files.items():
+        if b is None:                       # a directory of that name
+            os.makedirs(os.path.join(dirpath, n), exist_ok=True)
+            continue
         with open(os.path.join(dirpath, n), 'wb') as f:
             f.write(b)
 
